@@ -393,7 +393,7 @@ fn judge(g: &G, printed: &Printed, via_unused: bool, with_bin: bool, salt: u8) -
 }
 
 fn case_regress(doc: &serde_json::Value) -> Outcome {
-    let Some(g) = G::from_json(&doc["g"]) else { return Outcome::Broken("bad regress file".into()) };
+    let Some(g) = super::common::grammar_from_doc(doc) else { return Outcome::Broken("bad regress file".into()) };
     let printed = print_grammar(&g, &mut Style::minimal(), None);
     judge(&g, &printed, true, true, 0)
 }
